@@ -62,7 +62,8 @@ pub proof fn lemma_consume(s0: Seq<bool>, k: int, m: int)
 }
 // float operations that cannot panic, abstracted (Verus has no float arithmetic)
 #[verifier::external_body]
-pub fn verif_f32_scale(v: i16, k: f32) -> (r: f32) { unimplemented!() }
+pub fn verif_f32_scale(v: i16, k: f32) -> (r: f32) ensures r == f32_scale_spec(v, k), { unimplemented!() }
+pub uninterp spec fn f32_scale_spec(v: i16, k: f32) -> f32;
 pub uninterp spec fn i16_to_f32_spec(v: i16) -> f32;
 pub uninterp spec fn f32_mul_spec(a: f32, k: f32) -> f32;
 #[verifier::external_body]
@@ -748,7 +749,8 @@ def emit_module(vf, exp, path, mod, depth, stats, leafs, parent_mod=None):
                 unit_l2_bias.emit(vf, exp, path, fr, i2)
                 unit_l2_bias.emit_decode(vf, exp, path, fr, i2)
             elif fr.name == 'df_msg1230_biases':
-                emit_bias_decode(vf, exp, path, fr, i2)
+                unit_l2_bias.emit_1230(vf, exp, path, fr, i2)
+                unit_l2_bias.emit_1230_decode(vf, exp, path, fr, i2)
             stub = opaque_frag_stub(fr.name, None, extra)
             if 'msm_rows' in dir() and msm_rows:
                 # row fragments only call data-field encoders: by inspection their only errors are the leaves' (assumed, listed)
